@@ -80,7 +80,7 @@ CLAUSES = (
     "tz-utc",
 )
 
-START_TODS = ((0, 0), (9, 15), (14, 30))
+START_TODS = ((0, 0), (9, 15), (14, 30), (15, 45), (21, 1))
 BAH_TODS = ((0, 0), (9, 15), (14, 30), (21, 0), (23, 59))
 WEEKDAYS = ("MON", "TUE", "WED", "THU", "FRI")
 UNKNOWN_WEEKDAYS = ("SAT", "SUN", "sat", "Sun", "", "MONDAY", "friday", "XYZ", "M", "MO", "TUES", "WEEKDAY", "1")
@@ -91,10 +91,10 @@ MAX_FAILURES = 25
 BOUND = (
     "Start date: every date 2015-12-15 .. 2032-03-15 (5935 dates: every weekday alignment, every month end incl. "
     "those on Saturdays/Sundays, every year end, February of the leap years 2016/2020/2024/2028).  Ranges per "
-    "start date d, start time of day t in {00:00, 09:15, 14:30} UTC: (a) end = d + L days at 23:59; (b) end = d + "
+    "start date d, start time of day t in {00:00, 09:15, 14:30, 15:45, 21:01} UTC (the last two lie after the pre-market / default rebalance time of the start date itself): (a) end = d + L days at 23:59; (b) end = d + "
     "L days at t itself (edge of 'end time of day not before the start's'; L=0 is end == start).  Short: every t x "
     "(a) L in {0..10} and (b) L in {0,1,3,7}.  Mid: (a) L in {31,33,70} and (b) L=31 with ONE t per start date "
-    "(t rotates with the date ordinal mod 3).  For each short/mid range 14 constructions: WeeklyRebalance for each "
+    "(t rotates with the date ordinal mod 5).  For each short/mid range 14 constructions: WeeklyRebalance for each "
     "of MON..FRI (letter case rotating over UPPER/lower/Title/mIXED) x pre_market in {False, True}; DailyRebalance "
     "x {False, True}; EndOfMonthRebalance x {False, True}.  Long: (a) L=366 on even date ordinals, L=800 on odd "
     "ones, one t (rotating), 8 constructions: MON..FRI and daily with one pre_market value each (rotating with "
@@ -457,7 +457,7 @@ def _quick_cases(seed):
     yield make_case("weekly", s, e, "SAT", False)
     # boundary set (start time of day rotates with the date so that each date gets one, each time many dates)
     for n, d in enumerate(cal.boundary_start_dates()):
-        tod = START_TODS[n % 3]
+        tod = START_TODS[n % len(START_TODS)]
         for c in cases_for_start_date(d, tods=(tod,), lengths_a=(0, 2, 5, 33), lengths_b=(0, 7)):
             yield c
     # ranges anchored on the last business day of a month (24 consecutive months): ending exactly on it with the
@@ -465,7 +465,7 @@ def _quick_cases(seed):
     y, m = 2019, 12
     for n in range(24):
         last = cal.last_business_day_of_month(y, m)
-        tod = START_TODS[n % 3]
+        tod = START_TODS[n % len(START_TODS)]
         for length in (3, 31):
             anchored = (
                 _shape_b(last - length * cal.DAY, tod, length),
